@@ -16,14 +16,16 @@ BATTR = {"none", "text", "bg", "brd_left", "brd_top", "brd_right", "brd_bottom"}
 PATHS = {"single", "multi2", "multi3", "figure"}
 ALLIDX = set(range(1, 658))
 GEN = {
-    "quick": [dict(name="all657", consts=dict(PathSet={"single"}, ColourIdx=ALLIDX, KSet={1}, ModeSet={"off"}, BodyAttrSet={"text"}, ShapeSet={"scalar"}, FontSet={1})),
-              dict(name="paths", consts=dict(PathSet=PATHS, ColourIdx={26, 552}, KSet={2}, ModeSet={"off", "both"}, BodyAttrSet={"none", "text"}, ShapeSet={"matrix"}, FontSet={1})),
-              dict(name="borders", consts=dict(PathSet=PATHS, ColourIdx={26, 552}, KSet={2}, ModeSet={"off", "border"}, BodyAttrSet={"none", "brd_top"}, ShapeSet={"col"}, FontSet={1})),
-              dict(name="sim", consts=dict(PathSet=PATHS, ColourIdx=ALLIDX, KSet=set(range(1, 9)), ModeSet=MODES, BodyAttrSet=BATTR, ShapeSet={"scalar", "col", "matrix"}, FontSet=set(range(1, 11))), simulate=700)],
-    "thorough": [dict(name="all657", consts=dict(PathSet={"single", "multi2"}, ColourIdx=ALLIDX, KSet={1}, ModeSet={"off"}, BodyAttrSet={"text", "bg", "brd_top"}, ShapeSet={"scalar"}, FontSet={1})),
-                 dict(name="paths", consts=dict(PathSet=PATHS, ColourIdx={26, 552}, KSet={2}, ModeSet={"off", "both"}, BodyAttrSet={"none", "text"}, ShapeSet={"matrix"}, FontSet={1})),
-              dict(name="borders", consts=dict(PathSet=PATHS, ColourIdx={26, 552}, KSet={2}, ModeSet={"off", "border"}, BodyAttrSet={"none", "brd_top"}, ShapeSet={"col"}, FontSet={1})),
-                 dict(name="sim", consts=dict(PathSet=PATHS, ColourIdx=ALLIDX, KSet=set(range(1, 9)), ModeSet=MODES, BodyAttrSet=BATTR, ShapeSet={"scalar", "col", "matrix"}, FontSet=set(range(1, 11))), simulate=12000)],
+    "quick": [dict(name="all657", consts=dict(PathSet={"single"}, ColourIdx=ALLIDX, KSet={1}, ModeSet={"off"}, BodyAttrSet={"text"}, ShapeSet={"scalar"}, FontSet={1}, HAutoSet={False}, UseColorSet={"default"})),
+              dict(name="paths", consts=dict(PathSet=PATHS, ColourIdx={26, 552}, KSet={2}, ModeSet={"off", "both"}, BodyAttrSet={"none", "text"}, ShapeSet={"matrix"}, FontSet={1}, HAutoSet={False}, UseColorSet={"default"})),
+              dict(name="borders", consts=dict(PathSet=PATHS, ColourIdx={26, 552}, KSet={2}, ModeSet={"off", "border"}, BodyAttrSet={"none", "brd_top"}, ShapeSet={"col"}, FontSet={1}, HAutoSet={False}, UseColorSet={"default"})),
+              dict(name="options", consts=dict(PathSet={"single"}, ColourIdx={26, 552}, KSet={2}, ModeSet={"off", "both", "border"}, BodyAttrSet={"text"}, ShapeSet={"scalar"}, FontSet={1}, HAutoSet={False, True}, UseColorSet={"default", "true", "false"})),
+              dict(name="sim", consts=dict(PathSet=PATHS, ColourIdx=ALLIDX, KSet=set(range(1, 9)), ModeSet=MODES, BodyAttrSet=BATTR, ShapeSet={"scalar", "col", "matrix"}, FontSet=set(range(1, 11)), HAutoSet={False, True}, UseColorSet={"default", "true", "false"}), simulate=700)],
+    "thorough": [dict(name="all657", consts=dict(PathSet={"single", "multi2"}, ColourIdx=ALLIDX, KSet={1}, ModeSet={"off"}, BodyAttrSet={"text", "bg", "brd_top"}, ShapeSet={"scalar"}, FontSet={1}, HAutoSet={False}, UseColorSet={"default"})),
+                 dict(name="paths", consts=dict(PathSet=PATHS, ColourIdx={26, 552}, KSet={2}, ModeSet={"off", "both"}, BodyAttrSet={"none", "text"}, ShapeSet={"matrix"}, FontSet={1}, HAutoSet={False}, UseColorSet={"default"})),
+              dict(name="borders", consts=dict(PathSet=PATHS, ColourIdx={26, 552}, KSet={2}, ModeSet={"off", "border"}, BodyAttrSet={"none", "brd_top"}, ShapeSet={"col"}, FontSet={1}, HAutoSet={False}, UseColorSet={"default"})),
+              dict(name="options", consts=dict(PathSet={"single"}, ColourIdx={26, 552}, KSet={2}, ModeSet={"off", "both", "border"}, BodyAttrSet={"text"}, ShapeSet={"scalar"}, FontSet={1}, HAutoSet={False, True}, UseColorSet={"default", "true", "false"})),
+                 dict(name="sim", consts=dict(PathSet=PATHS, ColourIdx=ALLIDX, KSet=set(range(1, 9)), ModeSet=MODES, BodyAttrSet=BATTR, ShapeSet={"scalar", "col", "matrix"}, FontSet=set(range(1, 11)), HAutoSet={False, True}, UseColorSet={"default", "true", "false"}), simulate=12000)],
 }
 JUDGE = ["C12_Resolve", "C12_Font", "C12_Complete"]
 
@@ -71,7 +73,7 @@ def spec_from_cfg(c):
                 sec["brd"] = {c["battr"][4:]: mat}
         sections.append(sec)
     path = "figure" if c["path"] == "figure" else ("single" if c["path"] == "single" else "multi")
-    return dict(path=path, sections=sections, comp=comp)
+    return dict(path=path, sections=sections, comp=comp, header_auto=bool(c.get("hauto")), use_color=c.get("usecolor", "default"))
 
 
 def run_one(sc):
